@@ -236,6 +236,47 @@ def replay_checkpoint_keys(engine):
         shutil.rmtree(d, ignore_errors=True)
 
 
+def replay_driver_state():
+    """float64, real save (torch.save to a temporary file) + torch.load + real _apply_resume_state: which surface-hopping
+    driver attributes differ afterwards"""
+    import os, shutil, tempfile, types, io, contextlib, datetime
+    import seqm.MolecularDynamics as MD
+    import seqm.NonadiabaticDynamics as ND
+    from . import mdsim as M
+
+    M.uninstall()
+    d = tempfile.mkdtemp(prefix="verif_c10_")
+    try:
+        t = lambda *s: torch.rand(*s, dtype=torch.float64)
+        mol = types.SimpleNamespace(species=torch.tensor([[1, 1]]), coordinates=t(1, 2, 3), velocities=t(1, 2, 3), Etot=t(1), dm=t(1, 8, 8), cis_amplitudes=t(1, 2, 4), transition_density_matrices=t(1, 2, 8, 8), const=None, old_mos=t(1, 8, 8), force=t(1, 2, 3), molecular_orbitals=t(1, 8, 8), cis_energies=t(1, 2), dP2dt2=None)
+        md = ND.SurfaceHoppingDynamics.__new__(ND.SurfaceHoppingDynamics)
+        torch.nn.Module.__init__(md)
+        md.timestep, md.Temp, md.seqm_parameters, md.start_time = 0.5, 300.0, {}, datetime.datetime.now()
+        md.output_config = MD.OutputConfig.from_dict({"molid": [0], "prefix": "x", "h5": {}})
+        vals = {"_amp_phase": t(1, 2, 3), "_active_states": torch.tensor([1]), "post_hop_holdoff": torch.tensor([2]), "prev_state": torch.tensor([0]), "_current_potential": t(1)}
+        for k, v in vals.items():
+            setattr(md, k, v)
+        md._cache_old = {"nac_dot": t(1, 2, 2), "energies": t(1, 2)}
+        md._nstates, md.damp = 2, None
+        path = os.path.join(d, "x.restart.pt")
+        with contextlib.redirect_stdout(io.StringIO()):
+            md.save_checkpoint(mol, 10, True, None, step_done=3, path=path)
+        ck = torch.load(path, weights_only=False)
+        fresh = ND.SurfaceHoppingDynamics.__new__(ND.SurfaceHoppingDynamics)
+        torch.nn.Module.__init__(fresh)
+        fresh._amp_phase = fresh._active_states = fresh._current_potential = None
+        fresh._cache_old = {"energies": t(1, 2)}
+        fresh._resume_state = ck.get("nad_state", {})
+        fresh._apply_resume_state(types.SimpleNamespace(coordinates=types.SimpleNamespace(device="cpu"), active_state=None))
+        lost = [k for k, v in vals.items() if not (torch.is_tensor(getattr(fresh, k, None)) and torch.equal(getattr(fresh, k), v))]
+        if not (torch.is_tensor(fresh._cache_old.get("nac_dot")) and torch.equal(fresh._cache_old["nac_dot"], md._cache_old["nac_dot"])):
+            lost.append("_cache_old['nac_dot']")
+        print("replay surface-hopping driver state through save + restore: attributes not restored: %s" % lost)
+        return bool(lost)
+    finally:
+        shutil.rmtree(d, ignore_errors=True)
+
+
 class _RecDict(dict):
     def __init__(self, *a):
         dict.__init__(self, *a)
@@ -305,5 +346,41 @@ def ob_d(ob):
                     return
                 raise HarnessError("checkpoint-entry counterexample did not reproduce (%s)" % lab)
             ob.discharged(lab)
+    # surface-hopping driver state: save_checkpoint -> nad_state -> _apply_resume_state is the identity on every attribute
+    # the next step reads (amplitudes, active states, hop hold-off, previous state, current potential, previous coupling)
+    md = ND.SurfaceHoppingDynamics.__new__(ND.SurfaceHoppingDynamics)
+    torch.nn.Module.__init__(md)
+    md.timestep, md.Temp, md.seqm_parameters, md.start_time = 0.5, 300.0, {}, datetime.datetime.now()
+    md.output_config = MD.OutputConfig.from_dict({"molid": [0], "prefix": "x", "h5": {}})
+    attrs = {"_amp_phase": tag("amp_phase", 1, 2, 3), "_active_states": tag("active_states", 1), "post_hop_holdoff": tag("post_hop_holdoff", 1), "prev_state": tag("prev_state", 1), "_current_potential": tag("current_potential", 1)}
+    for k, v in attrs.items():
+        setattr(md, k, v)
+    md._cache_old = {"nac_dot": tag("nac_dot", 1, 2, 2), "energies": tag("energies", 1, 2)}
+    md._nstates, md.damp = 2, None
+    got = {}
+    md._atomic_save_checkpoint = lambda ckpt, path: got.update(ckpt=ckpt)
+    with contextlib.redirect_stdout(io.StringIO()), symbolic_factories():
+        md.save_checkpoint(src, 10, True, None, step_done=3, path="/mem/x.restart.pt")
+    fresh = ND.SurfaceHoppingDynamics.__new__(ND.SurfaceHoppingDynamics)
+    torch.nn.Module.__init__(fresh)
+    fresh._amp_phase = fresh._active_states = fresh._current_potential = None
+    fresh._cache_old = {"energies": tag("energies_recomputed", 1, 2)}
+    fresh._resume_state = _RecDict(got["ckpt"].get("nad_state", {}))
+    target = types.SimpleNamespace(coordinates=types.SimpleNamespace(device="cpu"), active_state=None)
+    with symbolic_factories():
+        fresh._apply_resume_state(target)
+    checks = [(k, getattr(fresh, k, None), "tag_" + k.lstrip("_")) for k in attrs] + [("_cache_old['nac_dot']", (fresh._cache_old or {}).get("nac_dot"), "tag_nac_dot")]
+    for name, val, tagname in checks:
+        lab = "d:surface hopping driver attribute %s survives save + restore" % name
+        ok = isinstance(val, SymTensor)
+        if ok:
+            v, m = smt.prove(val.a.reshape(-1)[0] == z3.Real(tagname), [], lab, "lra", 10)
+            ok = v == "unsat"
+        if not ok:
+            if replay_driver_state():
+                ob.violation("surface-hopping driver attribute %s is not restored from the checkpoint: the first resumed step starts from a different electronic state than the uninterrupted run had" % name, {"module": "harness.C10", "func": "replay_driver_state", "args": {}})
+                return
+            raise HarnessError("driver-state counterexample did not reproduce (%s)" % lab)
+        ob.discharged(lab)
     x, y = z3.Reals("x y")
     expect_refuted(ob, x == y, [], "twin: a different attribute's tag is distinguishable", "lra")
